@@ -83,6 +83,9 @@ var c15torsionPick = []int{4, 4, 4, 2, 6, 1, 3, 5, 7, 0}
 // c15torsionOrder[i] is the order of curve.EIGHT_TORSION[i], computed, not assumed.
 var c15torsionOrder = func() [8]int {
 	var o [8]int
+	if ColdStart() {
+		return o
+	}
 	for i, T := range curve.EIGHT_TORSION {
 		var acc curve.EdwardsPoint
 		acc.Identity()
